@@ -591,7 +591,7 @@ func childC03(args []string) int {
 		add(p, -1, 0, false, "2x2")
 	}
 	// 3x1, 2x3 and two-key programs with preemption bound 3; larger random programs
-	nb := run.Pick(60, 3000)
+	nb := run.Pick(60, 1500)
 	for i := 0; i < nb; i++ {
 		vi := 0
 		p := c03Program{Init: []string{"absent", "both", "l2only"}[rng.Intn(3)], MultiReader: rng.Intn(2) == 0, Concurrency: []uint8{1, 4}[rng.Intn(2)]}
@@ -619,9 +619,9 @@ func childC03(args []string) int {
 				p.Threads = append(p.Threads, th)
 			}
 		}
-		add(p, 3, run.Pick(120, 400), false, "bounded")
+		add(p, 3, run.Pick(120, 300), false, "bounded")
 	}
-	nr := run.Pick(10, 500)
+	nr := run.Pick(10, 300)
 	for i := 0; i < nr; i++ {
 		vi := 0
 		p := c03Program{Init: []string{"absent", "both", "l2only"}[rng.Intn(3)], MultiReader: rng.Intn(2) == 0, Concurrency: []uint8{1, 4}[rng.Intn(2)]}
@@ -632,7 +632,7 @@ func childC03(args []string) int {
 			}
 			p.Threads = append(p.Threads, th)
 		}
-		add(p, -1, run.Pick(40, 200), true, "random")
+		add(p, -1, run.Pick(40, 150), true, "random")
 	}
 
 	complete := map[string]bool{"2x1": true, "2x2": true}
